@@ -570,6 +570,13 @@ func init() {
 	// (the heimdall client is interpreted from source: its retry loop runs over the modelled
 	// http.Client.Do, its backoff sleeps advance the modelled clock)
 
+	// math/rand (jitter of retry backoffs): some value of the range — the smallest
+	E("math/rand.Int63n", func(fr *frame, args []value) value { return int64(0) })
+	E("math/rand.Int31n", func(fr *frame, args []value) value { return int32(0) })
+	E("math/rand.Intn", func(fr *frame, args []value) value { return 0 })
+	E("math/rand.Int63", func(fr *frame, args []value) value { return int64(0) })
+	E("math/rand.Float64", func(fr *frame, args []value) value { return float64(0) })
+
 	// uuid.New: a fresh identifier per call (the n-th call on a path yields bytes derived from n;
 	// contract: distinct from every earlier one)
 	E("github.com/google/uuid.New", func(fr *frame, args []value) value {
